@@ -354,10 +354,10 @@ pub fn run(args: &Args) -> ! {
         h.nontrivial(fp(name));
         check_model(h, m)
     });
-    ctx.run_prop("generated", ctx.tier().pick(12_000, 300_000), mixed_plan, check_plan);
+    ctx.run_prop("generated", ctx.tier().pick(30_000, 400_000), mixed_plan, check_plan);
     ctx.run_prop(
         "scaling",
-        ctx.tier().pick(4_000, 100_000),
+        ctx.tier().pick(10_000, 100_000),
         || (model::plan(Params { open: false, uses: false, shades: 0, ..Params::default() }), prop_oneof![dec2(0.25, 4.0), Just(2.0f32), Just(0.5f32)]),
         check_scaling,
     );
